@@ -291,6 +291,17 @@ func (it *interp) external(x *ssa.Call, fn *ssa.Function) val {
 		it.hashes = append(it.hashes, o)
 		it.event("sha512.New", nil, x, nil)
 		return ptr{o: o, idx: -1}
+	case "crypto/sha512.Sum512":
+		// the one-shot form of New / Write / Sum: a 64-byte array value
+		in := contentOfVal(it.get(c.Args[0]))
+		digest := T("SHA512", in)
+		it.event("hash.Write", []*Term{in}, x, nil)
+		it.event("hash.Sum", []*Term{in}, x, digest)
+		it.path.Sums = append(it.path.Sums, HashSum{Transcript: []*Term{in}, Pos: x.Pos()})
+		o := it.newObj("digest@"+x.Name(), x.Type())
+		o.N = 64
+		o.writeRegion(0, 64, digest, false)
+		return ptr{o: o, idx: -1}
 	case "io.ReadFull":
 		r := it.term(c.Args[0])
 		buf := it.get(c.Args[1])
